@@ -255,8 +255,22 @@ OPT_UNKNOWN = [{"nx_cor": 4}, {"target_poloidal_spacing_length": 1}, {"Orthogona
 OPT_UNKNOWN_OTHER = {"geqdsk": [{"ny": 8}, {"nx": 4}, {"r_inner": 0.1}, {"R0": 1.0},
                                 {"q_coefficients": [2.5]}],
                      "circular": [{"nx_core": 3}, {"psinorm_sol": 1.1}, {"ny_sol": 8},
-                                  {"xpoint_poloidal_spacing_length": 0.05},
-                                  {"reverse_current": True}]}
+                                  {"psinorm_core": 0.8}, {"reverse_current": True}]}
+
+
+def known_to_entry(entry, names):
+    """Are all `names` options that this entry point's factories define?  (Guard for the
+    opt_unknown oracle: `xpoint_poloidal_spacing_length` was once listed as a tokamak-only
+    name; it is a base-class option that the circular case accepts rightly.)"""
+    from hypnotoad.core.mesh import BoutMesh
+
+    if entry == "geqdsk":
+        from hypnotoad.cases.tokamak import TokamakEquilibrium as Eq
+    else:
+        from hypnotoad.cases.circular import CircularEquilibrium as Eq
+    known = set(Eq.user_options_factory.defaults) | \
+        set(Eq.nonorthogonal_options_factory.defaults) | set(BoutMesh.user_options_factory.defaults)
+    return all(n in known for n in names)
 # an equilibrium option changed between building the equilibrium and building the mesh:
 # differences of every size count, from a flipped bool down to the last digits of a tiny
 # tolerance (a comparison "to within rounding" must not equate 1e-12 with 1e-13)
@@ -770,6 +784,8 @@ def classify(case, res, problems, counters):
                           f"not valid: {problems[:4]}"}
     if kind == "opt_inconsistent" and not case["fault"].get("applied"):
         return None  # the changed key is not shared by equilibrium and mesh: inapplicable
+    if kind == "opt_unknown" and known_to_entry(case["entry"], case["fault"]["extra"]):
+        return None  # not unknown to this entry point after all: nothing to demand
     if kind in ("opt_unknown", "opt_invalid", "opt_inconsistent"):
         what = case["fault"].get("extra") or case["fault"].get("applied")
         return {"class": "BAD_OPTION_ACCEPTED",
